@@ -61,7 +61,7 @@ type ctlJ struct {
 }
 
 type actJ struct {
-	A   string `json:"a"` // tag | msg | status | disr | ctl | skipAfter | nop
+	A   string `json:"a"` // tag | msg | status | disr | ctl | skipAfter | skip | nop
 	V   string `json:"v,omitempty"`
 	N   int    `json:"n,omitempty"`
 	Ctl *ctlJ  `json:"ctl,omitempty"`
@@ -220,6 +220,8 @@ func actText(a actJ) string {
 		return ctlText(a.Ctl)
 	case "skipAfter":
 		return "skipAfter:" + a.V
+	case "skip":
+		return "skip:" + strconv.Itoa(a.N)
 	case "nop":
 		return "nolog"
 	}
@@ -487,6 +489,8 @@ func actTerm(a actJ) string {
 		return "ACtl " + ctlTerm(a.Ctl)
 	case "skipAfter":
 		return "ASkipAfter " + vh.HxS(a.V)
+	case "skip":
+		return fmt.Sprintf("ASkip %d", a.N)
 	case "nop":
 		return "ANop"
 	}
